@@ -166,11 +166,6 @@ impl SyncAssetTransfer {
     }
 
     pub(crate) fn request(&self, asset_type: SyncAssetType, id: Uuid, url: String) {
-        if let Ok(meshes) = self.meshes.read() {
-            if meshes.contains_key(&id) {
-                return;
-            }
-        }
         let meshes_to_apply = self.meshes_to_apply.clone();
         let images_to_apply = self.images_to_apply.clone();
         let audios_to_apply = self.audios_to_apply.clone();
